@@ -2,7 +2,8 @@ import Pkgcore.Base.Proto
 import Pkgcore.Model.C21
 /-!
 Driver for C21.  `c21.filters`: the two filters on a list of locations.  `c21.install`: the install trigger, the
-abstract merge and the restore.  `c21.uninstall`: the uninstall trigger and the abstract unmerge.
+abstract merge and the restore.  `c21.uninstall`: the uninstall trigger and the abstract unmerge.  `c21.history`: the live file system after each operation of a history (`traceOps`), every operation
+with its own settings.
 -/
 namespace Pkgcore.Driver.C21
 open Lean Pkgcore.Proto Pkgcore.C21
@@ -25,6 +26,18 @@ def parseIEntry (j : Json) : Option IEntry := do
 
 def liveJson (f : LiveFile) : Json := Json.arr #[ofChars f.dir, ofChars f.base, toJson f.content]
 def ientryJson (e : IEntry) : Json := Json.arr #[ofChars e.dir, ofChars e.base, toJson e.isReg, toJson e.content]
+
+/-- one operation of a history: `{"op": "edit", "files": […]}`, `{"op": "install", <settings>, "install": […]}`,
+`{"op": "uninstall", <settings>, "recorded": […]}` -/
+def parseOp (j : Json) : Option Op := do
+  let op ← getStr j "op"
+  if op = "edit" then
+    pure (.edit (← (← getArr j "files").mapM parseLive))
+  else if op = "install" then
+    pure (.install (← parseSettings j) (← (← getArr j "install").mapM parseIEntry))
+  else if op = "uninstall" then
+    pure (.uninstall (← parseSettings j) (← (← getArr j "recorded").mapM parseIEntry))
+  else none
 
 def handle : Handler := fun cmd j =>
   match cmd with
@@ -58,6 +71,13 @@ def handle : Handler := fun cmd j =>
       let recorded ← (← getArr j "recorded").mapM parseIEntry
       pure (Json.mkObj [("kept", Json.arr ((keptAtUnmerge s live recorded).map liveJson).toArray),
         ("after", Json.arr ((unmergeFs s live recorded).map liveJson).toArray)]) : Option Json) with
+    | some r => some r
+    | none => some (Json.str "bad-op")
+  | "c21.history" =>
+    match (do
+      let live ← (← getArr j "live").mapM parseLive
+      let ops ← (← getArr j "ops").mapM parseOp
+      pure (Json.arr ((traceOps live ops).map fun l => Json.arr (l.map liveJson).toArray).toArray) : Option Json) with
     | some r => some r
     | none => some (Json.str "bad-op")
   | "c21.cfg" =>
